@@ -202,9 +202,13 @@ pub fn run(args: &Args) -> serde_json::Value {
             for (p, o) in sl1.iter().enumerate() {
                 if let Some(o) = o {
                     let okb = o.bond < spec.bonds.len() && o.vars == spec.bonds[o.bond].vars;
-                    let w = if okb { g.get_bonds()[o.bond].at(&o.ins, &o.outs).unwrap_or(-1.0) } else { -1.0 };
-                    if !okb || !(w > 0.0) || o.constant != g.get_bonds()[o.bond].is_constant() {
-                        fail("C07", format!("slot {}: illegal stored operator {:?} (weight {})", p, o, w), c.clone(), &mut oracle_failures);
+                    // the matrix element comes from the table the user supplied, not from the library's lookup
+                    let arity_ok = okb && o.ins.len() == o.vars.len() && o.outs.len() == o.vars.len();
+                    let w = if arity_ok { spec.bonds[o.bond].weight(&o.ins, &o.outs) } else { -1.0 };
+                    if !arity_ok || !(w > 0.0) || o.constant != spec.bonds[o.bond].is_constant() {
+                        // a stored operator of weight zero makes the whole configuration weight zero: the sampler
+                        // is then outside the support of the thermal distribution (C04) and stores an illegal term (C07)
+                        fail("C04,C07", format!("slot {}: illegal stored operator {:?} (matrix element {} from the supplied table)", p, o, w), c.clone(), &mut oracle_failures);
                     }
                 }
             }
